@@ -227,7 +227,47 @@ func genHist(r *rng.R, maxLen int) Hist {
 	for i := 0; i < n; i++ {
 		h.Ops = append(h.Ops, COp{Ctx: r.Intn(nctx), Op: g.op(2)})
 	}
+	if r.Intn(2) == 0 {
+		h.Ops = withDerivations(r, h.Ops, nctx)
+	}
 	return h
+}
+
+var deriveKinds = []string{"nonce", "nonce", "nonce", "children", "clear", "value", "cancel"}
+
+func genDerive(r *rng.R) Op {
+	o := Op{Tag: "D", Text: rng.Pick(r, deriveKinds)}
+	if o.Text == "nonce" {
+		o.Nonce = rng.Pick(r, []string{"n1", "abc123", "Zz-9_", ""})
+	}
+	return o
+}
+
+// withDerivations inserts context derivations at arbitrary points - in particular before the first use of a
+// rendering context - each from any Go context the rendering context has so far, and sends every use through any
+// of them.
+func withDerivations(r *rng.R, ops []COp, nctx int) []COp {
+	have := make([]int, nctx) // derived contexts so far, per rendering context
+	var out []COp
+	for c := 0; c < nctx; c++ {
+		for r.Intn(2) == 0 && have[c] < 3 {
+			d := genDerive(r)
+			d.Via = r.Intn(have[c] + 1)
+			out = append(out, COp{Ctx: c, Op: d})
+			have[c]++
+		}
+	}
+	for _, co := range ops {
+		if r.Intn(5) == 0 {
+			d := genDerive(r)
+			d.Via = r.Intn(have[co.Ctx] + 1)
+			out = append(out, COp{Ctx: co.Ctx, Op: d})
+			have[co.Ctx]++
+		}
+		co.Op.Via = r.Intn(have[co.Ctx] + 1)
+		out = append(out, co)
+	}
+	return out
 }
 
 // opsOf lists the uses a history makes in context c (what spec "proj c h" is).
